@@ -24,12 +24,13 @@ PID = 'C13'
 KNOWN_KEY = 'composite-size-stale-over-filter'
 THEOREMS = [
     'concat_cols', 'concat_rows', 'concat_size_sum', 'ensemble_cols', 'ensemble_row', 'ensemble_size',
-    'meshgrid_col', 'combos_length', 'mem_combos', 'combos_nodup', 'combos_row_major', 'mesh_rows', 'mesh_size_prod',
-    'mesh_flatten', 'transform_run', 'transform_row', 'filter_run', 'filter_rows', 'filter_size_updates',
-    'resample_rows', 'resample_distinct', 'static_constant', 'predefined_constant', 'sampler_shape',
-    'op_add_eq_concat', 'op_mul_eq_ensemble', 'op_xor_eq_mesh', 'size_eq_rows', 'size_eq_rows_calls',
-    'stale_concat_over_filter', 'stale_mesh_over_filter', 'stale_static_over_filter', 'stale_transform_over_filter',
-    'stale_sampler_over_filter', 'rows_stay_paired', 'build_staticOK',
+    'meshgrid_col', 'combos_length', 'mem_combos', 'combos_nodup', 'combos_row_major', 'mesh_rows', 'mesh_run',
+    'mesh_size_prod', 'mesh_flatten', 'mesh_flatten_build', 'transform_run', 'transform_row', 'filter_run', 'filter_rows',
+    'filter_size_updates', 'resample_rows', 'ixUsed_valid', 'resample_distinct', 'static_constant', 'predefined_constant',
+    'sampler_shape', 'op_add_eq_concat', 'op_mul_eq_ensemble', 'op_xor_eq_mesh', 'shape_run', 'size_eq_rows',
+    'size_eq_rows_calls', 'stale_concat_over_filter', 'stale_mesh_over_filter', 'stale_static_over_filter',
+    'stale_transform_over_filter', 'stale_sampler_over_filter', 'size_eq_rows_fails_without_stable', 'paired_run',
+    'rows_stay_paired', 'static_ctor_paired', 'predefined_ctor_rectOK',
 ]
 SIZE_READERS = {'C', 'E', 'M', '+', '*', '^', 'T', 'S', 'Z', 'R'}   # classes whose __init__ reads a child's .size
 
@@ -220,7 +221,7 @@ def canon(out):
 
 def exc_name(ex):
     n = type(ex).__name__
-    return n if n in ('ValueError', 'IndexError', 'RuntimeError') else f'Other:{n}'
+    return n if n in ('ValueError', 'IndexError', 'RuntimeError', 'TypeError') else f'Other:{n}'
 
 
 def real_run(e, ncalls, torch_seed=0):
@@ -406,6 +407,8 @@ def evaluate_property(e, real):
         spec = SpecNode(e, real['spies'], [list(i) for i in real['idx']])
     except Pre as p:
         return [], str(p)
+    except AssertionError as a:
+        return [dict(kind='indices', call=-1, msg=str(a))], None
     bad = []
     skipped = None
     for ci, (data, shapes, size) in enumerate(real['calls']):
@@ -413,6 +416,9 @@ def evaluate_property(e, real):
             rows = spec.draw()
         except Pre as p:
             skipped = str(p)
+            break
+        except AssertionError as a:      # e.g. sampling "without replacement" used repeated indices
+            bad.append(dict(kind='indices', call=ci, msg=str(a)))
             break
         got = [tuple(c[i] for c in data) for i in range(len(data[0]))] if data and len({len(c) for c in data}) == 1 else None
         if got != rows:
@@ -649,8 +655,8 @@ def scripts(tier, seed):
     tg = TreeGen(rng)
     out = [dict(e=e, ncalls=3, stream='known-reproducer') for e, _, _ in KNOWN_REPRO]
     out += [dict(e=e, ncalls=3, stream='malformed') for e in malformed(rng)]
-    for _ in range(150 if tier == 'quick' else 2500):
-        out.append(dict(e=tg.tree(), ncalls=rng.randint(3, 5), stream='random'))
+    for _ in range(150 if tier == 'quick' else 5000):
+        out.append(dict(e=tg.tree(), ncalls=rng.randint(3, 5 if tier == 'quick' else 7), stream='random'))
     if tier == 'thorough':
         out += [dict(e=e, ncalls=3, stream='exhaustive') for e in exhaustive(rng)]
     return out
@@ -717,12 +723,15 @@ def check(tier, seed):
                     mismatches.append(dict(script=dict(e=e, text=show(e)), error=f'model claims {st}, real returned {[len(c) for c in data]} size {size}'))
                     break
         bad, skipped = evaluate_property(e, r)
+        if err and diff is not None and not any(l in (f'error {err}', f'build error {err}') for l in mb):
+            # the real code raised where the model (= the code as it was when the theorems were proved) returns samples
+            bad = bad + [dict(kind='exception', call=len(r['calls']), msg=f'{err} raised; the model returns samples here')]
         evaluations += len(r['calls'])
         if skipped:
             hist['preconditions_not_met'][skipped] = hist['preconditions_not_met'].get(skipped, 0) + 1
         for b in bad:
             stale = (b['kind'] == 'size' and diff is None and st == 'stable none' and size_changing_filter_below(e)
-                     and (e[0] == 'F' or b['size'] == nominal_sizes(e)))
+                     and b['size'] == nominal_sizes(e))
             if stale:
                 hist['size_clause_stale'] += 1
                 known_hits.append((e, b))
